@@ -276,6 +276,9 @@ func c08Scripts(types []int) []string {
 		// negotiation fails: wrong reply type, error status, reader rejects SetProtocolVersion, connection ends, local close
 		"new:1 call:1:2:1001 z start pf:63:0:1:0 w:1 call:2:2:1002 z n:1 ps:12:0:5 rc r:1 r:2",
 		"new:1 call:1:2:1001 z start pf:63:0:1:0 w:1 ps:100:0:100 rc r:1",
+		// an ERROR_MESSAGE is a failure whatever status it carries (also Success): the reader did not confirm anything
+		"new:1 call:1:2:1001 z start pf:63:0:1:0 w:1 ps:56:0:18 w:2 ps:100:1:0 rc r:1",
+		"new:1 call:1:2:1001 z start pf:63:0:1:0 w:1 ps:100:0:0 rc r:1",
 		"new:1 call:1:2:1001 z start pf:63:0:1:0 w:1 ps:56:0:18 w:2 call:2:2:1002 z ps:57:1:100 rc r:1 r:2",
 		"new:1 call:1:2:1001 z start pf:63:0:1:0 w:1 ps:56:0:18 w:2 ps:12:1:5 rc r:1",
 		"new:1 call:1:2:1001 z start pf:63:0:1:0 w:1 pc rc r:1",
